@@ -82,6 +82,31 @@ CLAIMED["C16"] = (
     "custom AST dataflow: must-facts per path class (path enumeration over alternatives), structural pairing test (static analysis)",
     "DESIGN.md section 5, C16",
 )
+CLAIMED["C10"] = (
+    "Printer/parser agreement and structural rules on the views of a tiled-strided layout: every constructor field is "
+    "printed and parsed; every field printable as `?` goes through the int-or-question production; `[bounds] -> (steps)` "
+    "pairing and order agree on both sides and arity is enforced; get_affine_map extracts digit k of dimension d as "
+    "(d mod prod(bounds[k:])) floordiv prod(bounds[k+1:]) scaled by step (d,k) for all levels; from_stride chains "
+    "step*bound; canonicalize merges only under inner.step*inner.bound == outer.step, drops only unit bounds and keeps "
+    "the innermost level; the common contiguous block only takes strides equal in both layouts that continue the running "
+    "extent; bound/step op builders cover every (dim, depth). Decides these clauses, not numeric agreement of the views "
+    "on all layouts (arithmetic).",
+    WALKER_NOTE,
+    "custom AST analysis: sibling (printer/parser) table agreement, slot templates on expanded expressions, must-facts (static analysis)",
+    "DESIGN.md section 5, C10",
+)
+CLAIMED["C11"] = (
+    "Dependency, typestate and table rules on allocation: the snax.alloc size depends on all (dim,depth) bounds times "
+    "their byte steps, the rounded-up element size and offset*element size with no unguarded floor division; StaticAllocs "
+    "initialises, rounds up, checks `emitted + size <= start + capacity` on the very address emitted, stores the bump "
+    "pointer and only then emits, on every path (must-pass-through events + must-facts killed on re-assignment); static "
+    "allocators refuse dynamic sizes / missing memory spaces; MiniMallocate extends lifetimes by all uses of the buffer "
+    "and transitively of its casts/views, lifted to top-level ops, hands out offset+start within capacity per memory "
+    "space; the descriptor is filled at [0],[1],[2],[3,i]. The external minimalloc solver is trusted.",
+    WALKER_NOTE + " minimalloc (external solver, absent from the sandbox) is trusted to return non-overlapping offsets for overlapping lifetimes.",
+    "custom AST dataflow: dependency cones, must-pass-through events, must-facts with kill-on-store (typestate) (static analysis)",
+    "DESIGN.md section 5, C11",
+)
 NOT_APPLICABLE = {
     "C02": "address-stream equality is integer arithmetic over runtime strides/bounds; no structural necessary condition carries weight (DESIGN.md section 5, C02)",
 }
